@@ -76,15 +76,19 @@ Proof.
   destruct (H3 eq_refl) as [A B]. now rewrite A, B.
 Qed.
 
+Lemma Qle_bool_inject_Z n : Qle_bool (inject_Z n) 0 = (n <=? 0)%Z.
+Proof. unfold Qle_bool, inject_Z. cbn [Qnum Qden]. rewrite Z.mul_1_r. reflexivity. Qed.
+
 Ltac sunf :=
-  cbv [C18_Spectrum.sconstruct C18_Spectrum.sstep s_blank rebin_if_initialised set_std set_mean set_min set_max
+  cbv [C18_Spectrum.sconstruct C18_Spectrum.sstep sset missing gauss_only check_of rebin_of spolicy check_fails rebin_by
+       fst snd andb s_blank rebin_if_initialised set_std set_mean set_min set_max
        set_bins base_init sk s_min s_max s_bins s_mean s_std s_recip s_norm s_ncdf s_delta s_wl s_psd s_pow
        Z.ltb Z.compare].
 
 Lemma sconstruct_valid k a : svalid k a = true -> sconstruct k a = Some (scanon k a).
 Proof.
   intro Hv. destruct (svalid_parts k a Hv) as (Hr & Hb & Hg).
-  assert (Hb' : (g_bins a <=? 0)%Z = false) by (apply Z.leb_gt; exact Hb).
+  assert (Hb' : Qle_bool (inject_Z (g_bins a)) 0 = false) by (rewrite Qle_bool_inject_Z; apply Z.leb_gt; exact Hb).
   destruct k.
   - sunf. rewrite Hr. sunf. rewrite Hb'. reflexivity.
   - destruct (Hg eq_refl) as [Hm Hs].
@@ -95,13 +99,13 @@ Lemma sconstruct_some_valid k a s : sconstruct k a = Some s -> svalid k a = true
 Proof.
   destruct k.
   - sunf. destruct (range_invalid (g_min a) (g_max a)) eqn:R; [discriminate|].
-    sunf. destruct (g_bins a <=? 0)%Z eqn:E; [discriminate|]. intros _.
-    apply Z.leb_gt in E. apply Z.ltb_lt in E. unfold svalid. now rewrite R, E.
+    sunf. destruct (Qle_bool (inject_Z (g_bins a)) 0) eqn:E; [discriminate|]. intros _.
+    rewrite Qle_bool_inject_Z in E. apply Z.leb_gt in E. apply Z.ltb_lt in E. unfold svalid. now rewrite R, E.
   - sunf. destruct (Qle_bool (g_std a) 0) eqn:T1; [discriminate|].
     sunf. destruct (Qle_bool (g_mean a) 0) eqn:T2; [discriminate|].
     sunf. destruct (range_invalid (g_min a) (g_max a)) eqn:R; [discriminate|].
-    sunf. destruct (g_bins a <=? 0)%Z eqn:E; [discriminate|]. intros _.
-    apply Z.leb_gt in E. apply Z.ltb_lt in E. unfold svalid. now rewrite R, E, T1, T2.
+    sunf. destruct (Qle_bool (inject_Z (g_bins a)) 0) eqn:E; [discriminate|]. intros _.
+    rewrite Qle_bool_inject_Z in E. apply Z.leb_gt in E. apply Z.ltb_lt in E. unfold svalid. now rewrite R, E, T1, T2.
 Qed.
 
 Definition sgood (k : skind) (s : sstate) : Prop := exists a, svalid k a = true /\ s = scanon k a.
@@ -140,7 +144,8 @@ Proof.
   assert (Hbins : s_bins (scanon k a) = g_bins a) by (destruct k; reflexivity).
   assert (Hmin : s_min (scanon k a) = g_min a) by (destruct k; reflexivity).
   assert (Hmax : s_max (scanon k a) = g_max a) by (destruct k; reflexivity).
-  destruct o as [v | v | n | v | v | g]; unfold C18_Spectrum.sstep.
+  destruct o as [v | v | n | v | v | g]; unfold C18_Spectrum.sstep, sset, missing, gauss_only, check_of, rebin_of, spolicy;
+    cbn [fst snd andb check_fails rebin_by].
   6:{ destruct g, (sk (scanon k a)); cbn [fst]; exists a; auto. }
   - rewrite Hmax. destruct (range_invalid v (g_max a)) eqn:E; cbn [fst]; [exists a; auto|].
     exists (mkSA v (g_max a) (g_bins a) (g_mean a) (g_std a)). split.
@@ -150,7 +155,7 @@ Proof.
     exists (mkSA (g_min a) v (g_bins a) (g_mean a) (g_std a)). split.
     + apply svalid_intro; assumption.
     + apply update_cache_params. destruct k; reflexivity.
-  - destruct (n <=? 0)%Z eqn:E; cbn [fst]; [exists a; auto|].
+  - rewrite Qle_bool_inject_Z. destruct (n <=? 0)%Z eqn:E; cbn [fst]; [exists a; auto|].
     exists (mkSA (g_min a) (g_max a) n (g_mean a) (g_std a)). split.
     + apply svalid_intro; try assumption. cbn [g_bins]. apply Z.leb_gt in E. exact E.
     + apply update_cache_params. destruct k; reflexivity.
